@@ -1,11 +1,14 @@
 package c07
 
 import (
+	"bytes"
+	"context"
 	"crypto/sha1"
 	"encoding/hex"
 	"encoding/json"
 	"fmt"
 	"os"
+	"os/exec"
 	"path/filepath"
 	"runtime/pprof"
 	"sort"
@@ -60,19 +63,50 @@ type Obs struct {
 	Ref       string      `json:"ref,omitempty"`
 	Head      string      `json:"head,omitempty"`
 	Verdict   Verdict     `json:"verdict"`
-	Rel       string      `json:"rel,omitempty"` // commit chain served vs local head: absent, equal, contains-local, behind-local, diverged (shares at most a prefix, or nothing, with the local chain)
+	Rel       string      `json:"rel,omitempty"`    // commit chain served vs local head: absent, equal, contains-local, behind-local, diverged (shares at most a prefix, or nothing, with the local chain)
 	Mutant    []MergeRes  `json:"mutant,omitempty"` // what was reported for the mutant's entity
 	Statuses  []string    `json:"statuses,omitempty"`
 	PullErr   *string     `json:"pull_err,omitempty"`
 	Changed   []RefChange `json:"changed,omitempty"`
 	NotMerged []string    `json:"not_merged,omitempty"`
 	ReadAll   string      `json:"readall_err,omitempty"` // first error of ReadAll after the merge
+	Cmd       *CmdObs     `json:"cmd,omitempty"`         // mode G
 	// mode L
 	Read      *string `json:"read,omitempty"`       // error of Read(id) ("" = no error)
 	ReadAllL  *string `json:"readall_l,omitempty"`  // first error of ReadAll
 	ReadEmpty bool    `json:"read_empty,omitempty"` // Read returned an entity without operations / versions
 	Build     *string `json:"build,omitempty"`      // error of a forced cache build
 	Resolve   *string `json:"resolve,omitempty"`    // error resolving the entity through the rebuilt cache
+}
+
+// CmdObs is what running the real `git-bug pull origin` in the victim repository showed.
+type CmdObs struct {
+	Exit     int      `json:"exit"`            // exit code (-1: killed by a signal or timed out)
+	Panic    bool     `json:"panic,omitempty"` // a Go panic trace on stderr
+	Line     string   `json:"line,omitempty"`  // the line printed for the hostile entity
+	Lock     bool     `json:"lock,omitempty"`  // the lock file is still there afterwards
+	Next     int      `json:"next"`            // exit code of a following `git-bug bug`
+	NextErr  string   `json:"next_err,omitempty"`
+	Stderr   string   `json:"stderr,omitempty"`  // head of stderr
+	Statuses []string `json:"printed,omitempty"` // kinds of result lines printed (new / updated / invalid data / merge error)
+}
+
+func runGitBug(bin, dir string, args ...string) (exit int, stdout, stderr string) {
+	ctx, cancel := context.WithTimeout(context.Background(), 120*time.Second)
+	defer cancel()
+	cmd := exec.CommandContext(ctx, bin, args...)
+	cmd.Dir = dir
+	var o, e bytes.Buffer
+	cmd.Stdout, cmd.Stderr = &o, &e
+	err := cmd.Run()
+	exit = 0
+	if err != nil {
+		exit = -1
+		if ee, ok := err.(*exec.ExitError); ok && ee.ExitCode() >= 0 {
+			exit = ee.ExitCode()
+		}
+	}
+	return exit, o.String(), e.String()
 }
 
 func statusName(r entity.MergeResult) string {
@@ -260,7 +294,8 @@ func (r *runner) Run(caseID string) (obs Obs) {
 	}
 	target := g
 	var gR *raw
-	if c.Mode == "P" {
+	viaRemote := c.Mode == "P" || c.Mode == "G" // the mutant is served by a per-case copy of the bare remote
+	if viaRemote {
 		if err := resetTree(filepath.Join(m.Dir, "origin"), dirR, ""); err != nil {
 			return Obs{Harness: err.Error()}
 		}
@@ -289,7 +324,7 @@ func (r *runner) Run(caseID string) (obs Obs) {
 			_ = g.setRef(seedRemote, "")
 		}
 		err = g.setRef(ref, b.head)
-	case "P":
+	case "P", "G":
 		ref = "refs/" + ns + "/" + b.refName
 		if b.refName != s.Id {
 			_ = gR.setRef("refs/"+ns+"/"+s.Id, "")
@@ -308,6 +343,9 @@ func (r *runner) Run(caseID string) (obs Obs) {
 				return Obs{Harness: cerr.Error()}
 			}
 			cfg.Remotes["origin"].URLs = []string{world.Scheme + "://" + dirR}
+			if c.Mode == "G" {
+				cfg.Remotes["origin"].URLs = []string{dirR} // the real binary: stock git transport over a path
+			}
 			err = g.r.SetConfig(cfg)
 		}
 	default:
@@ -344,7 +382,7 @@ func (r *runner) Run(caseID string) (obs Obs) {
 		return Obs{Harness: "open victim: " + err.Error()}
 	}
 	defer func() { _ = repo.Close() }()
-	if c.Mode == "P" {
+	if viaRemote {
 		rr, err := repository.OpenGoGitRepo(dirR, world.Namespace, nil)
 		if err != nil {
 			return Obs{Harness: "open remote: " + err.Error()}
@@ -355,7 +393,7 @@ func (r *runner) Run(caseID string) (obs Obs) {
 		obs.Verdict = judge_(s.Kind, repo, ref)
 	}
 
-	mutantId := b.refName
+	mutantId := b.refName[strings.LastIndexByte(b.refName, '/')+1:] // what git-bug takes as the id: the last segment of the ref name
 	counts := map[string]int{}
 	record := func(phase string, res entity.MergeResult) {
 		st := statusName(res)
@@ -440,6 +478,56 @@ func (r *runner) Run(caseID string) (obs Obs) {
 		}
 		r.phase(caseID, "cache.close")
 		_ = rc.Close()
+		if repo, err = repository.OpenGoGitRepo(dir, world.Namespace, nil); err != nil {
+			return Obs{Harness: "reopen victim: " + err.Error()}
+		}
+	case "G":
+		// the real command, as a process: `git-bug pull origin` in the victim's work tree
+		r.phase(caseID, "git-bug pull")
+		_ = repo.Close()
+		bin := os.Getenv("C07_GITBUG")
+		if bin == "" {
+			return Obs{Harness: "no git-bug binary"}
+		}
+		co := &CmdObs{}
+		exit, stdout, stderr := runGitBug(bin, dir, "pull", "origin")
+		co.Exit = exit
+		co.Panic = strings.Contains(stderr, "panic:") || strings.Contains(stderr, "goroutine ") || strings.Contains(stderr, "fatal error:")
+		co.Stderr = stderr
+		if len(co.Stderr) > 600 {
+			co.Stderr = co.Stderr[:600]
+		}
+		human := mutantId
+		if len(human) > 7 {
+			human = human[:7]
+		}
+		kinds := map[string]bool{}
+		for _, line := range strings.Split(stdout, "\n") {
+			for _, k := range []string{": new", ": updated", ": invalid data", ": merge error"} {
+				if strings.Contains(line, k) {
+					kinds[strings.TrimPrefix(k, ": ")] = true
+				}
+			}
+			if strings.HasPrefix(line, human+": ") && co.Line == "" {
+				co.Line = line
+				if len(co.Line) > 200 {
+					co.Line = co.Line[:200]
+				}
+			}
+		}
+		for k := range kinds {
+			co.Statuses = append(co.Statuses, k)
+		}
+		sort.Strings(co.Statuses)
+		if _, err := os.Stat(filepath.Join(dir, ".git", world.Namespace, "lock")); err == nil {
+			co.Lock = true
+		}
+		r.phase(caseID, "git-bug bug")
+		co.Next, _, co.NextErr = runGitBug(bin, dir, "bug")
+		if len(co.NextErr) > 300 {
+			co.NextErr = co.NextErr[:300]
+		}
+		obs.Cmd = co
 		if repo, err = repository.OpenGoGitRepo(dir, world.Namespace, nil); err != nil {
 			return Obs{Harness: "reopen victim: " + err.Error()}
 		}
